@@ -28,6 +28,9 @@ pub struct CDoc {
     pub b: Option<u64>,
     /// an ARRAY-valued indexed field: one posting per element (array key expansion, batch updates)
     pub g: Option<Vec<u64>>,
+    /// a UNIQUE array-valued indexed field: every element is a unique key (partially conflicting batches)
+    #[unique]
+    pub h: Option<Vec<u64>>,
     pub v: Vector,
 }
 
@@ -43,6 +46,17 @@ pub const VALS: &[(Option<u64>, Option<&str>, Option<u64>)] = &[
 ];
 /// The array field g of value n: overlapping, shrinking, empty and absent arrays.
 pub const GVALS: &[Option<&[u64]>] = &[Some(&[1, 2]), Some(&[2]), Some(&[]), Some(&[2, 3]), Some(&[1]), None];
+/// The unique array field h of value n: values 1/3 share key 2, values 1/5 share key 1.
+pub const HVALS: &[Option<&[u64]>] = &[Some(&[1, 2]), Some(&[3]), Some(&[2, 4]), Some(&[]), Some(&[1]), None];
+fn h_of(val: usize) -> Option<Vec<u64>> {
+    HVALS[val - 1].map(|a| a.to_vec())
+}
+fn h_fv(val: usize) -> Fv {
+    match h_of(val) {
+        Some(a) => Fv::Array(a.into_iter().map(Fv::U64).collect()),
+        None => Fv::Null,
+    }
+}
 fn g_of(val: usize) -> Option<Vec<u64>> {
     GVALS[val - 1].map(|a| a.to_vec())
 }
@@ -79,6 +93,7 @@ pub fn mk_doc(val: usize) -> CDoc {
         a,
         b: Some(val as u64),
         g: g_of(val),
+        h: h_of(val),
         v: vec![bf16::from_f32(val as f32), bf16::from_f32(1.0)],
     }
 }
@@ -94,6 +109,7 @@ pub fn update_fields(val: usize) -> BTreeMap<String, Fv> {
         ("a".to_string(), a.map(Fv::U64).unwrap_or(Fv::Null)),
         ("b".to_string(), Fv::U64(val as u64)),
         ("g".to_string(), g_fv(val)),
+        ("h".to_string(), h_fv(val)),
         (
             "v".to_string(),
             Fv::Vector(vec![bf16::from_f32(val as f32), bf16::from_f32(1.0)]),
@@ -131,6 +147,7 @@ pub fn val_of(doc: &CDoc) -> usize {
             && doc.a == *a
             && doc.b == Some((i + 1) as u64)
             && doc.g == g_of(i + 1)
+            && doc.h == h_of(i + 1)
             && doc.v == vec![bf16::from_f32((i + 1) as f32), bf16::from_f32(1.0)]
         {
             return i + 1;
@@ -141,7 +158,7 @@ pub fn val_of(doc: &CDoc) -> usize {
 
 pub fn index_kinds() -> Value {
     // "c": the multi-field (virtual) B-tree index over (a, b) - always unique in the code
-    json!({"k": "btu", "t": "bm", "v": "hn", "a": "bt", "b": "bt", "c": "btu", "g": "bt"})
+    json!({"k": "btu", "t": "bm", "v": "hn", "a": "bt", "b": "bt", "c": "btu", "g": "bt", "h": "btu"})
 }
 
 /// Terms[index][val-1] as JSON
@@ -153,17 +170,19 @@ pub fn index_terms() -> Value {
     let mut v = Vec::new();
     let mut c = Vec::new();
     let mut g = Vec::new();
+    let mut h = Vec::new();
     for (i, (kk, tt, aa)) in VALS.iter().enumerate() {
         // every (a, b) pair of the table is distinct (b is the value number): the composite key of value n is n
         c.push(json!(vec![(i + 1) as u64]));
         g.push(json!(g_of(i + 1).unwrap_or_default()));
+        h.push(json!(h_of(i + 1).unwrap_or_default()));
         k.push(json!(kk.map(|x| vec![x]).unwrap_or_default()));
         t.push(json!(tokens_of(*tt)));
         a.push(json!(aa.map(|x| vec![x]).unwrap_or_default()));
         b.push(json!(vec![(i + 1) as u64]));
         v.push(json!(Vec::<u64>::new()));
     }
-    json!({"k": k, "t": t, "a": a, "b": b, "v": v, "c": c, "g": g})
+    json!({"k": k, "t": t, "a": a, "b": b, "v": v, "c": c, "g": g, "h": h})
 }
 
 pub fn db_config() -> DBConfig {
@@ -188,6 +207,7 @@ pub async fn create_index(c: &mut Collection, name: &str) -> Result<(), DBError>
         "b" => c.create_btree_index_nx(&["b"]).await,
         "c" => c.create_btree_index_nx(&["a", "b"]).await,
         "g" => c.create_btree_index_nx(&["g"]).await,
+        "h" => c.create_btree_index_nx(&["h"]).await,
         "t" => c.create_bm25_index_nx(&["t"]).await,
         "v" => {
             c.create_hnsw_index_nx(
@@ -205,7 +225,7 @@ pub async fn create_index(c: &mut Collection, name: &str) -> Result<(), DBError>
 
 pub async fn remove_index(c: &mut Collection, name: &str) -> Result<bool, DBError> {
     match name {
-        "k" | "a" | "b" | "g" => c.remove_btree_index(&[name]).await,
+        "k" | "a" | "b" | "g" | "h" => c.remove_btree_index(&[name]).await,
         "c" => c.remove_btree_index(&["a", "b"]).await,
         "t" => c.remove_bm25_index(&["t"]).await,
         "v" => c.remove_hnsw_index("v").await,
@@ -383,7 +403,7 @@ async fn observe_with(col: &Collection, max_id: u64) -> Value {
         }
     }
     let mut idx = serde_json::Map::new();
-    for name in ["k", "a", "b", "g"] {
+    for name in ["k", "a", "b", "g", "h"] {
         if col.get_btree_index(&[name]).is_ok() {
             let mut pairs = Vec::new();
             for key in 0..=9u64 {
